@@ -89,6 +89,8 @@ def make_serializable(x):
             "dtype": str(x.dtype),
             "shape": list(x.shape),
         }
+    if isinstance(x, numpy.bool_):
+        return bool(x)
     if isinstance(x, integer):
         return int(x)
     if isinstance(x, floating):
